@@ -11,15 +11,14 @@ EQUIV_FILES = ['Proofs/C15.v']
 EXTRACT = 'Extract/C15_x.v'
 
 TRUSTED = [
-    'netaddr: the TEXT parsing of MAC addresses and prefixes (netaddr.EUI(str), netaddr.IPNetwork(str).first, valid_ipv4/valid_ipv6) is an '
-    'oracle: the harness hands the parsed integers or the class of the exception to the model; modelled in Coq and tied by correspondence: '
-    'EUI.eui64() arithmetic, IPAddress(int)/EUI(int) range checks, the operators of IPAddress used by get_mac_addr_by_ipv6',
-    'the exception clause (IPv4 prefix, malformed prefix/MAC -> ValueError or TypeError) is proved for oslo\'s own logic (guards + except '
-    'clauses, regenerated from the AST) given the class netaddr raised; that netaddr raises for malformed text is tested, not proved',
-    'urllib.parse.urlsplit / parse_qsl are contracts: (a) the path urlsplit returns contains no "?" and, when fragments are allowed, no "#"; '
-    '(b) parse_qsl returns a list of (str, str) pairs — both tested on every generated URL/query; is_valid_ipv6 (escape_ipv6) is an abstract '
-    'predicate in the theorems (its verdict is passed to the model)',
-    'CPython int()/str() modelled in Base/PyInt.v; str.split/count/in modelled in Base/Str.v, Base/C15_PyVal.v',
+    'No parsing oracle is left for text arguments: netaddr.IPNetwork(text) (value, prefix length, first), is_valid_ipv4, is_valid_ipv6 are the '
+    'Coq models of C11 (Model/C11.v, extended in Model/C15_Text.v), netaddr.EUI(text) is the Coq recogniser of Model/C15_Text.v '
+    '(RE_MAC_FORMATS / RE_EUI64_FORMATS / int() fall-back), str(EUI) the printer there; all tied to netaddr 1.3.0 / glibc by correspondence '
+    '(ops euitext, euiparse, net, mactext, hosttext) — that the libraries behave like these models is tested, not proved',
+    'still oracle inputs: the exception CLASS netaddr raises for NON-TEXT arguments (None, float, list, bytes prefix/MAC) of get_ipv6_addr_by_EUI64; '
+    'urllib.parse.urlsplit (contract: no "?" in the returned path, no "#" when fragments are allowed) and urllib.parse.parse_qsl (contract: a list '
+    'of (str, str) pairs) — both contracts are premises of the theorems and are tested on every generated URL / query',
+    'CPython int()/str() modelled in Base/PyInt.v (+ C11_Lib.py_int_str); str.split/rsplit/count/in modelled in Base/Str.v, Base/C15_PyVal.v',
 ]
 ASSUMPTIONS = [
     'parse_host_port: None and "" are identified (both falsy); int() digit-count limit (4300) not modelled',
@@ -600,7 +599,9 @@ def search(rng, budget):
     for _ in range(budget):
         yield from gen_cases(rng, 'quick')
 
-LEVEL_TEXT = ('Theorems for all 48-bit MACs and all prefixes: the value get_ipv6_addr_by_EUI64 returns (network address + modified EUI-64 when the low 64 '
+LEVEL_TEXT = ('End to end on TEXT (prefix text through C11\'s IPNetwork/is_valid_ipv4 models, MAC text through a netaddr.EUI recogniser, escape_ipv6 through C11\'s '
+              'is_valid_ipv6): value, MAC round trip through the printed text, exception clause, host:port round trip for every RFC 4291 text with optional scope. '
+              'Theorems for all 48-bit MACs and all prefixes: the value get_ipv6_addr_by_EUI64 returns (network address + modified EUI-64 when the low 64 '
               'bits of the network address are clear; arithmetic + otherwise), the MAC round trip through get_mac_addr_by_ipv6, the exception clause for '
               'oslo\'s guards/handlers; exact characterisation (iff) of the hosts for which parse_host_port(escape_ipv6(h) + ":" + port) and the default-port '
               'form round-trip, for every integer port; params() last-wins / all-values over any list of pairs; urlsplit post-processing is the '
